@@ -1,3 +1,3 @@
 From Coq Require Import Extraction ExtrOcamlBasic.
 From Snoopy Require Import Lib.CStr Expand.Model Expand.Exec Datasource.Cmdline.
-Extraction "model_expand.ml" Exec.generate_det Exec.spec_det Cmdline.cmdline Cmdline.filename_ds Byte.to_N Byte.of_N.
+Extraction "model_expand.ml" Exec.generate_det Exec.spec_det Exec.errors_det Cmdline.cmdline Cmdline.filename_ds Byte.to_N Byte.of_N.
